@@ -955,6 +955,92 @@ pub fn run(ctx: &mut Ctx, eng: &mut dyn Engine) {
             r.case("cenc-empty-block", &cc, &sess, &[], &h, false);
         }
     }
+
+    // ---- 11. the codec contract assumed by C03 `complete_implies_exact` (CodecOK), against the REAL crates through the
+    // `fec_try_decode` hook: from any set of genuine symbols of a block the decoder returns the genuine block or nothing
+    // (RS: every subset with >= k symbols must decode; RaptorQ/Raptor: the source symbols alone must decode; mixes are tried too)
+    for &scheme in &[5u8, 129, 6, 1] {
+        let grid: Vec<(u16, u16)> = if thorough { vec![(1, 1), (1, 3), (2, 1), (2, 2), (3, 2), (3, 5), (4, 4), (5, 3), (6, 2)] } else { vec![(1, 2), (2, 2), (3, 2), (4, 3)] };
+        for (k, p) in grid {
+            if scheme != 5 && scheme != 129 && k as usize + p as usize > 8 {
+                continue;
+            }
+            for e in [4u16, 16] {
+                for short in [0usize, 1, 3] {
+                    let size = (k as usize * e as usize).saturating_sub(short).max(1);
+                    let oti = scheme_oti(scheme, e, k, p, true);
+                    let spec = ObjSpec { content: content(&mut rng, size), cenc: Cenc::Null, inband_cenc: false, md5: false, oti: None, transfers: 1 };
+                    let sess = match make_session(&oti, &[spec], 1, 1) {
+                        Some(s) => s,
+                        None => continue,
+                    };
+                    let o = sess.objs[0].clone();
+                    let (al, asm, nl, n) = hk::block_partitioning(k as u64, size as u64, e as u64);
+                    if n != 1 {
+                        continue;
+                    }
+                    let kk = if 0 < nl { al } else { asm } as usize;
+                    let bs = hk::block_length(al, asm, nl, size as u64, e as u64, 0) as usize;
+                    let mut syms: Vec<(u32, Vec<u8>)> = Vec::new();
+                    for raw in &sess.pkts {
+                        if let Ok(pk) = alc::parse_alc_pkt(raw) {
+                            if pk.lct.toi != o.toi {
+                                continue;
+                            }
+                            if let Ok(pid) = alc::parse_payload_id(&pk, &o.oti) {
+                                if !syms.iter().any(|s| s.0 == pid.esi) {
+                                    syms.push((pid.esi, raw[pk.data_payload_offset..].to_vec()));
+                                }
+                            }
+                        }
+                    }
+                    syms.sort_by_key(|s| s.0);
+                    if syms.len() > 9 {
+                        continue;
+                    }
+                    r.n += 1;
+                    r.eng.reset();
+                    r.ctx.case(&format!("codec-contract-{}", r.n));
+                    r.ctx.count("family:codec-contract");
+                    r.ctx.step(r.eng, "orecv cfg max=1000 once=1 maxerr=0 md5=1");
+                    let mut decoded = 0;
+                    for mask in 1u32..(1 << syms.len()) {
+                        let sub: Vec<(u32, Vec<u8>)> = syms.iter().enumerate().filter(|(i, _)| mask >> i & 1 == 1).map(|(_, s)| s.clone()).collect();
+                        // two push orders: ascending ESI and descending
+                        for rev in [false, true] {
+                            let mut sub2 = sub.clone();
+                            if rev {
+                                sub2.reverse();
+                            }
+                            let oti2 = o.oti.clone();
+                            let res = guarded(std::panic::AssertUnwindSafe(move || hk::fec_try_decode(&oti2, kk, bs, 0, &sub2)));
+                            r.ctx.evaluations += 1;
+                            match res {
+                                Err(loc) => r.ctx.oracle_fail("C04:codec-panic", &format!("scheme {} k={} p={} e={}: decoder panics at {} on genuine symbols {:?}", scheme, kk, p, e, loc, sub.iter().map(|s| s.0).collect::<Vec<_>>())),
+                                Ok(Some(b)) => {
+                                    decoded += 1;
+                                    let genuine = b.len() >= size && b[..size] == o.content[..] && b[size..].iter().all(|x| *x == 0);
+                                    if !genuine {
+                                        r.ctx.oracle_fail("C03:codec-contract-wrong-block", &format!("scheme {} k={} p={} e={} size={}: decoding genuine symbols {:?} returns a block that is not the sender's", scheme, kk, p, e, size, sub.iter().map(|s| s.0).collect::<Vec<_>>()));
+                                    }
+                                }
+                                Ok(None) => {
+                                    let src_all = (0..kk as u32).all(|i| sub.iter().any(|s| s.0 == i));
+                                    let must = if scheme == 5 || scheme == 129 { sub.len() >= kk } else { src_all };
+                                    if must {
+                                        r.ctx.oracle_fail("C02:codec-contract-not-decodable", &format!("scheme {} k={} p={} e={}: genuine symbols {:?} are not decoded", scheme, kk, p, e, sub.iter().map(|s| s.0).collect::<Vec<_>>()));
+                                    }
+                                }
+                            }
+                        }
+                    }
+                    r.ctx.count(&format!("codec-contract:scheme{}:decoded", scheme));
+                    let _ = decoded;
+                    r.ctx.end_case(r.eng);
+                }
+            }
+        }
+    }
 }
 
 fn main() {
